@@ -42,6 +42,8 @@ int scen_dstring(cmd_t * c) {
 	} else if (!strcmp(n, "append_pf")) {
 		if (!strcmp(a[0].s, "d")) d_string_append_printf(D, "%d", (int)arg_long(&a[1]));
 		else if (!strcmp(a[0].s, "s")) d_string_append_printf(D, "<%s>", a[1].s);
+		else if (!strcmp(a[0].s, "l")) d_string_append_printf(D, a[1].s);			/* the payload is the format: no conversion in it */
+		else if (!strcmp(a[0].s, "pp")) { char * f = malloc(2 * a[1].n + 3); sprintf(f, "%s%%%%%s", a[1].s, a[1].s); d_string_append_printf(D, f); free(f); }
 		else d_string_append_printf(D, "%s%d", a[1].s, (int)arg_long(&a[2]));
 		log_state(n, "", 0, 0);
 	} else if (!strcmp(n, "prepend")) { d_string_prepend(D, a[0].s); log_state(n, "", 0, 0);
@@ -50,6 +52,8 @@ int scen_dstring(cmd_t * c) {
 	} else if (!strcmp(n, "insert_ca")) { d_string_insert_c_array(D, arg_size(&a[0]), a[1].s, arg_size(&a[2])); log_state(n, "", 0, 0);
 	} else if (!strcmp(n, "insert_pf")) {
 		if (!strcmp(a[1].s, "d")) d_string_insert_printf(D, arg_size(&a[0]), "%d", (int)arg_long(&a[2]));
+		else if (!strcmp(a[1].s, "l")) d_string_insert_printf(D, arg_size(&a[0]), a[2].s);
+		else if (!strcmp(a[1].s, "pp")) { char * f = malloc(2 * a[2].n + 3); sprintf(f, "%s%%%%%s", a[2].s, a[2].s); d_string_insert_printf(D, arg_size(&a[0]), f); free(f); }
 		else d_string_insert_printf(D, arg_size(&a[0]), "<%s>", a[2].s);
 		log_state(n, "", 0, 0);
 	} else if (!strcmp(n, "erase")) { d_string_erase(D, arg_size(&a[0]), arg_size(&a[1])); log_state(n, "", 0, 0);
